@@ -146,7 +146,11 @@ def generate(master, index, tier):
         },
         "sched": {"model": "adv", "seed": rng.getrandbits(48), "seg": rng.choice(("byte", "small", "random", "mixed", "full")), "p_fault": 0.0, "aims": []},
     }
-    if rng.random() < 0.3:
+    if rng.random() < 0.25:
+        # faults exactly at item boundaries (nothing in flight), application polls again:
+        # the reader over the socket must still return what the reader over the file returns
+        scn["sched"]["aims"], scn["poll"] = W.gen_boundary_faults(rng, items, FAULTS)
+    elif rng.random() < 0.3:
         scn["sched"] = _timed_cfg(rng)
         scn["sched"]["timeout"] = None  # fault-free differential: blocking socket
         scn["sched"]["writes"] = [len(it[1]) // 2 for it in items]
@@ -386,7 +390,7 @@ def _execute_l2(scn):
         st = W.Stream("socket", data, decider, budget)
         errs = []
         rd = RTCMReader(st.obj, validate=o["validate"], quitonerror=o["quitonerror"], labelmsm=o["labelmsm"], parsed=o["parsed"], bufsize=scn["bufsize"], errorhandler=errs.append)
-        sock_events = W.drive(rd, st, "iterate", 0)
+        sock_events = W.drive(rd, st, "iterate", scn.get("poll", 0))
         st2 = W.Stream("bytesio", data, None, budget)
         errs2 = []
         rd2 = RTCMReader(st2.obj, validate=o["validate"], quitonerror=o["quitonerror"], labelmsm=o["labelmsm"], parsed=o["parsed"], errorhandler=errs2.append)
@@ -401,7 +405,7 @@ def _execute_l2(scn):
                 out.append(("frame", bytes(e[1]), W.canon_msg(e[2])))
             elif e[0] == "raise":
                 out.append(("raise", type(e[1]).__name__))
-            else:
+            elif not scn.get("poll"):
                 out.append((e[0],))
         return out
 
